@@ -13,6 +13,8 @@ def parseDesc (t : String) : Desc :=
   | 'E' :: r => .echo (String.ofList r).toNat! true
   | ['f'] => .fail false
   | ['F'] => .fail true
+  -- `S<n>`: a oneway call the service answers with a stream of n items: a oneway call like any other (nothing is sent)
+  | 'S' :: r => .echo (1000000 + (String.ofList r).toNat!) true
   | ['u'] => .unser false
   | ['U'] => .unser true
   | 's' :: r =>
@@ -23,7 +25,7 @@ def parseDesc (t : String) : Desc :=
 
 def descTok : Desc → String
   | .echo v false => "e" ++ toString v
-  | .echo v true => "E" ++ toString v
+  | .echo v true => if v ≥ 1000000 then "S" ++ toString (v - 1000000) else "E" ++ toString v
   | .fail false => "f"
   | .fail true => "F"
   | .unser false => "u"
